@@ -167,7 +167,7 @@ PROPS['C05'] = dict(
     level='other',
     level_text=('Bounded contract check (Kani/CBMC) of the tap-hold decision on the real crate: WaitingState::handle_hold_tap and tick_wt (HoldTap arm) '
                 'against the decision table of the property statement for the three built-in variants, every clock value, and every queue of <= 4 '
-                'events over 3 keys; plus "fires exactly at the H-th tick" for H <= 6 (bounded stand-in, not a proof). The DECISION ITSELF is additionally proved UNBOUNDED by Verus (unit holdtap): '
+                'events over 3 keys; plus "fires exactly at the H-th tick" for H <= 6 (bounded stand-in, not a proof). The DECISION ITSELF is additionally proved UNBOUNDED by Verus (unit holdtap): [and WaitingState::tick_wt, cut WHOLE with handle_hold_tap as a callee under contract: one millisecond - timeout counts down, age counts up, both saturating - and THEN the decision table, so the tick on which the last millisecond elapses is the tick that reports the timeout; nothing else of the pending decision or the queue changes; this is the unbounded counterpart of the bounded harnesses c05_b_tick_wt_hold_tap / c05_b_timeout_on_time] '
                 'WaitingState::handle_hold_tap, cut whole, returns decision(w, cfg, queue) - the decision table of the statement - for EVERY queue (any length <= the capacity 32) and every clock value, '
                 'against assumed contracts for the queue iterator (next / clone / any / find with pure predicates) and an opaque Custom closure. The EXECUTION of the decision is '
                 'proved unbounded by Verus (unit waiting, text cut from layout.rs): Layout::waiting_into_hold / _tap / _timeout / drop_waiting run exactly the '
@@ -176,7 +176,7 @@ PROPS['C05'] = dict(
     technique='contract harnesses (Kani/CBMC) for the decision: symbolic waiting state + symbolic bounded queue, decision oracle from the statement, frame, must-fail twin; Verus contracts (unbounded) on the extracted waiting_into_* methods with a ghost call log for the execution',
     design_ref='DESIGN.md section 4, C05',
     explanation='handle_hold_tap (Kani bounded AND Verus unbounded): at most one of Tap/Hold/Timeout, never NoOp; Tap iff own release queued before the timeout elapsed; Timeout exactly when it elapses; early Hold on other press (press variant) / other press+release (release variant); queue and clock untouched. waiting_into_hold/_timeout: verif_calls == old.push(decision_call(w, w.hold / w.timeout_action, ..)) - exactly one call, the right action, coordinate and delay, waiting key consumed (for extra_waiting: exactly the idx-th removed); waiting_into_tap: that call first, then only the C09 repeats; drop_waiting: no call. do_action_hold_tap (FRAGMENT: the HoldTap arm of Layout::do_action): an ordinary press creates exactly one pending decision carrying this key\'s hold / tap / timeout actions, timeout (reduced by the queueing delay in quick mode), delay, ticks 0, in the primary slot if free else as one more concurrent one, arms the tap-repress window, and runs NO action; a re-press of the same key inside the window creates no decision and runs the tap action exactly once. tick_dispatch (FRAGMENT: the `match &mut self.waiting` expression of Layout::tick): with tick_wt as a deterministic stub (decide / ticked), exactly the method matching the decision runs on the primary slot - Hold -> hold action, Timeout -> timeout action, Tap -> tap action (+ chord repeats), NoOp -> dropped, None -> nothing and the key stays undecided - and nothing is dequeued while a key is undecided; with no undecided key the oldest queued event is dequeued iff no concurrent tap-hold is pending and the one-shot input pause has run out.',
-    verus=[dict(unit='waiting', only=['waiting_into_hold', 'waiting_into_tap', 'waiting_into_timeout', 'drop_waiting', 'do_action_hold_tap', 'do_action_prologue', 'tick_dispatch', 'event_real', 'from', 'push_back_chv2', 'update_coord', 'update', 'lemma_sigs_push']), dict(unit='holdtap', only=['handle_hold_tap', 'coord', 'is_press', 'is_release', 'is_corresponding_release', 'lemma_own_release'], fallback=['c05_b_handle_hold_tap'], cex={'handle_hold_tap': ['c05_b_handle_hold_tap']})],
+    verus=[dict(unit='waiting', only=['waiting_into_hold', 'waiting_into_tap', 'waiting_into_timeout', 'drop_waiting', 'do_action_hold_tap', 'do_action_prologue', 'tick_dispatch', 'event_real', 'from', 'push_back_chv2', 'update_coord', 'update', 'lemma_sigs_push']), dict(unit='holdtap', only=['handle_hold_tap', 'tick_wt', 'coord', 'is_press', 'is_release', 'is_corresponding_release', 'lemma_own_release'], fallback=['c05_b_handle_hold_tap'], cex={'handle_hold_tap': ['c05_b_handle_hold_tap']})],
     kani=[
         H('keyberon', 'layout', 'c05_b_handle_hold_tap', kind='bounded', bound='queue <= 4 events over 3 keys', functions=[L + 'WaitingState::handle_hold_tap']),
         H('keyberon', 'layout', 'c05_b_tick_wt_hold_tap', kind='bounded', bound='queue <= 4 events over 3 keys', functions=[L + 'WaitingState::tick_wt (HoldTap arm)']),
@@ -236,7 +236,7 @@ PROPS['C17'] = dict(
     technique='contract harnesses (Kani/CBMC): symbolic waiting state + bounded symbolic queue, counting oracle from the statement, queue frame',
     design_ref='DESIGN.md section 4, C17',
     explanation='handle_tap_dance / tick_wt(TapDance) / TapDanceEagerState::{tick_tde,is_expired,set_expired,incr_taps}. Execution of the chosen action "exactly once": Verus unit waiting (shared with C05), waiting_into_tap with a TapDance config runs w.tap exactly once at the key coordinate with delay 0. do_action_tap_dance (FRAGMENT: the TapDance arm of Layout::do_action): the lazy form creates the pending count at ONE tap with the whole action list and timeout and runs nothing; the eager form runs the first listed action exactly once, now, under a counter that is fresh unless this key\'s counter is already running. dequeue_press (FRAGMENT: the Press arm of Layout::dequeue): a dequeued press runs exactly one action; while this key\'s eager counter runs (not expired) it is the action for the taps counted so far, and the counter is incremented and re-armed; a press of another REAL key ends the count (timeout := 0) before that key is resolved through the layers; a virtual key does not. tick_eager_counter (FRAGMENT of Layout::tick): the counter counts down and is dropped exactly when its timeout has passed or every listed action has been performed. TapDanceEagerState::{is_expired, set_expired, incr_taps, tick_tde} are under contract (also Kani: c17_k_eager_state). tick_wt_tap_dance (unit holdtap; FRAGMENT: the TapDance arm of WaitingState::tick_wt, with the count handle_tap_dance as a deterministic stub): when the dance is decided with N taps the action performed is the N-th listed one, the last one if N reaches or exceeds the list length (never an index outside the list); a further tap restarts the timeout, otherwise it keeps running; the new count is carried on.',
-    verus=[dict(unit='waiting', only=['waiting_into_tap', 'do_action_tap_dance', 'dequeue_press', 'tick_eager_counter', 'is_expired', 'set_expired', 'incr_taps', 'tick_tde', 'lemma_sigs_push']), dict(unit='holdtap', only=['tick_wt_tap_dance'])],
+    verus=[dict(unit='waiting', only=['waiting_into_tap', 'do_action_tap_dance', 'dequeue_press', 'tick_eager_counter', 'is_expired', 'set_expired', 'incr_taps', 'tick_tde', 'lemma_sigs_push']), dict(unit='holdtap', only=['tick_wt_tap_dance', 'tick_wt'])],
     kani=[
         H('keyberon', 'layout', 'c17_b_handle_tap_dance', kind='bounded', bound='queue <= 4 events over 3 keys, lists 1..=4', functions=[L + 'WaitingState::handle_tap_dance']),
         H('keyberon', 'layout', 'c17_b_tick_wt_tap_dance', kind='bounded', bound='queue <= 4 events over 3 keys, lists 1..=4', functions=[L + 'WaitingState::tick_wt (TapDance arm)']),
@@ -255,13 +255,13 @@ CH = 'keyberon/src/chord.rs '
 PROPS['C09'] = dict(
     level='other',
     level_text=('Bounded contract check (Kani/CBMC) on the real crate. v1: ChordsGroup::{get_chord, get_chord_if_unambiguous, get_keys} over symbolic 128-bit key '
-                'sets and tables of <= 3 chords (exact-set match; unambiguous iff no strict superset is defined). v2: get_active_chord (release rule), '
+                'sets and tables of <= 3 chords (exact-set match; unambiguous iff no strict superset is defined). v2: get_active_chord (release rule; ALSO proved unbounded by Verus, unit chordtab), '
                 'drain_releases (participant release bookkeeping, non-participants change nothing, releases forwarded iff no press pending), '
                 'get_action_chv2 (each chord handed out once), next_coord in 851..=900 (complete).'),
     level_note='Trusted: rustc, Kani + CBMC. Not decided: WaitingState::handle_chord accumulation and decomposition, ChordsV2::process_presses (reads an FxHashMap), what handle_chord puts into the pressed queue.',
     technique='contract harnesses (Kani/CBMC): symbolic tables / queues within stated bounds, set-theoretic oracles from the statement',
     design_ref='DESIGN.md section 4, C09',
-    explanation='chord tables (v1): ChordsGroup::{get_keys, get_chord, get_chord_if_unambiguous} are proved UNBOUNDED by Verus (unit chordtab: first entry for the coordinate; exact-set match; unambiguous iff no defined chord strictly contains the pressed set - via an assumed try_fold / find contract for pure closures and closure annotations generated from the closure text, R12) in addition to the bounded Kani harnesses; chord release tracking (v2): Kani; v1 "action repeated on every participating coordinate": Verus unit waiting (shared with C05): after the tap action ran at the chord coordinate, waiting_into_tap performs each simple action (key / output chord / one-shot / layer, also as members of a multi) once on every coordinate of the pressed queue, in order, and nothing else (spec fn repeats).',
+    explanation='chord tables (v1): ChordsGroup::{get_keys, get_chord, get_chord_if_unambiguous} are proved UNBOUNDED by Verus (unit chordtab: first entry for the coordinate; exact-set match; unambiguous iff no defined chord strictly contains the pressed set - via an assumed try_fold / find contract for pure closures and closure annotations generated from the closure text, R12) in addition to the bounded Kani harnesses; v2 get_active_chord (cut whole, same unit) is proved UNBOUNDED too: an activated chord starts out with coordinate / age / action / participants as given, waits for EVERY participant under release-on-last-release and for nothing otherwise, and starts out already released iff a release was seen while collecting and the rule is release-on-first-release (heapless extend -> helper with the capacity as precondition: a chord has <= 16 participants, an observation about the parser\'s limit); the rest of chord release tracking (v2): Kani; v1 "action repeated on every participating coordinate": Verus unit waiting (shared with C05): after the tap action ran at the chord coordinate, waiting_into_tap performs each simple action (key / output chord / one-shot / layer, also as members of a multi) once on every coordinate of the pressed queue, in order, and nothing else (spec fn repeats).',
     verus=[dict(unit='chordtab'), dict(unit='waiting', only=['waiting_into_tap', 'lemma_sigs_push'])],
     kani=[
         H('keyberon', 'action', 'c09_b_get_chord', kind='bounded', bound='<= 3 chords, 128-bit sets symbolic', functions=[A + 'ChordsGroup::get_chord']),
